@@ -5,6 +5,7 @@
   except that a `-0.0` remainder would come back as `+0.0`.
 -/
 import GeonumModel.Lemmas.AngleStep
+import GeonumModel.Lemmas.GradeAngle
 import GeonumModel.Spec.RealWitness
 
 set_option linter.unusedSectionVars false
@@ -103,6 +104,11 @@ theorem one_three_blade_ops {g : Geonum F} (ha : g.angle.Inv) :
   simp only [Geonum.differentiate, Geonum.incrementBlade, Geonum.integrate, Geonum.decrementBlade, Angle.add, addVV,
     new_one_two, new_three_two, new_negone_two]
   exact ⟨⟨h1.1, h1.2.2⟩, ⟨h1.1, h1.2.2⟩, ⟨h3.1, h3.2.2⟩, ⟨hm.1, hm.2.2⟩⟩
+
+/-- (S) the grade angle is `(blade mod 4)·π/2 + remainder` (to within 4e-15 of rounding) and lies in `[0, 2π)` -/
+theorem gradeAngle_range {a : Angle F} (ha : a.Inv) :
+    Fin a.gradeAngle ∧ |val a.gradeAngle - ((a.blade % 4 : ℕ) * val (qp : F) + val a.rem)| ≤ 4 / 10 ^ 15 ∧
+    0 ≤ val a.gradeAngle ∧ val a.gradeAngle < 4 * val (qp : F) := gradeAngle_spec ha
 
 /-! ### histories over the fixed-step alphabet -/
 
